@@ -96,3 +96,398 @@ theorem count_range' (s m x : Nat) : (List.range' s m).count x = if s ≤ x ∧ 
   rw [(List.nodup_range' (s := s) (n := m) 1 (by omega)).count]; simp only [List.mem_range'_1]
 
 end FastQr.Proofs.SweepSym
+
+namespace FastQr.Proofs.SweepSym
+open FastQr Model Spec
+
+/-! ### row-major sweeps (masks 0 to 3) -/
+
+/-- visits of a sweep `for row in rows { for column in cols(row) { visit (row, column) } }` -/
+theorem count_rowMajor (rows : List Nat) (hrows : rows.Nodup) (cols : Nat → List Nat) (r c : Nat) :
+    (rows.flatMap fun row => (cols row).map fun column => (row, column)).count (r, c) =
+      if r ∈ rows then (cols r).count c else 0 := by
+  rw [count_flatMap']
+  simp only [count_map_pair_left]
+  rw [sum_map_supp rows hrows _ r (fun i _ hi => by simp [hi])]
+  simp
+
+theorem count_mask0 (n r c : Nat) (hr : r < n) (hc : c < n) :
+    (maskPositions 0 n).count (r, c) % 2 = 1 ↔ maskCond 0 r c = true := by
+  simp only [maskPositions, maskCond]
+  rw [count_rowMajor _ List.nodup_range, count_stepRange (by omega)]
+  simp only [List.mem_range, hr, if_true, beq_iff_eq]
+  split <;> omega
+
+theorem count_mask1 (n r c : Nat) (hr : r < n) (hc : c < n) :
+    (maskPositions 1 n).count (r, c) % 2 = 1 ↔ maskCond 1 r c = true := by
+  simp only [maskPositions, maskCond]
+  rw [count_rowMajor _ (nodup_stepRange 0 n 2 (by omega)), count_range]
+  simp only [mem_stepRange (show 0 < 2 by omega), hc, if_true, beq_iff_eq]
+  split <;> omega
+
+theorem count_mask2 (n r c : Nat) (hr : r < n) (hc : c < n) :
+    (maskPositions 2 n).count (r, c) % 2 = 1 ↔ maskCond 2 r c = true := by
+  simp only [maskPositions, maskCond]
+  rw [count_rowMajor _ List.nodup_range, count_stepRange (by omega)]
+  simp only [List.mem_range, hr, if_true, beq_iff_eq]
+  split <;> omega
+
+theorem count_mask3 (n r c : Nat) (hr : r < n) (hc : c < n) :
+    (maskPositions 3 n).count (r, c) % 2 = 1 ↔ maskCond 3 r c = true := by
+  simp only [maskPositions, maskCond]
+  rw [count_rowMajor _ List.nodup_range, count_stepRange (by omega)]
+  simp only [List.mem_range, hr, if_true, beq_iff_eq]
+  split <;> omega
+
+/-! ### mask 4: three-wide bands every six columns -/
+
+theorem count_mask4 (n r c : Nat) (hr : r < n) (hc : c < n) :
+    (maskPositions 4 n).count (r, c) % 2 = 1 ↔ maskCond 4 r c = true := by
+  simp only [maskPositions, maskCond]
+  have hshape : ∀ row : Nat,
+      ((stepRange (((row / 2) % 2) * 3) n 6).flatMap fun column =>
+        (List.range' column (min n (column + 3) - column)).map fun i => (row, i)) =
+      ((stepRange (((row / 2) % 2) * 3) n 6).flatMap fun column =>
+        List.range' column (min n (column + 3) - column)).map fun i => (row, i) := by
+    intro row; rw [List.map_flatMap]
+  simp only [hshape]
+  rw [count_rowMajor _ List.nodup_range]
+  simp only [List.mem_range, hr, if_true, beq_iff_eq]
+  rw [count_flatMap']
+  simp only [count_range']
+  -- the only band that can contain column c starts at c - (c + 6 - s) % 6
+  rw [sum_map_supp _ (nodup_stepRange _ n 6 (by omega)) _ (c - (c + 6 - (r / 2) % 2 * 3) % 6)
+    (fun i hi hne => by
+      rw [mem_stepRange (by omega)] at hi
+      have : ¬ (i ≤ c ∧ c < i + (min n (i + 3) - i)) := by omega
+      simp [this])]
+  simp only [mem_stepRange (show 0 < 6 by omega)]
+  split
+  · split <;> omega
+  · omega
+
+/-! ### mask 7: upper triangle plus mirror image -/
+
+theorem count_mask7 (m n r c : Nat) (hm : 7 ≤ m) (hr : r < n) (hc : c < n) :
+    (maskPositions m n).count (r, c) % 2 = 1 ↔ maskCond m r c = true := by
+  have hmp : maskPositions m n = (List.range n).flatMap fun row =>
+           (List.range' row (n - row)).flatMap fun column =>
+             if (((row + column) % 2) + ((row * column) % 3)) % 2 != 0 then []
+             else (row, column) :: (if column != row then [(column, row)] else []) := by
+    unfold maskPositions; split <;> first | omega | rfl
+  have hmc : maskCond m r c = (((r + c) % 2 + (r * c) % 3) % 2 == 0) := by
+    unfold maskCond; split <;> first | omega | rfl
+  rw [hmp, hmc]
+  have hpiece : ∀ row column : Nat,
+      (if (((row + column) % 2) + ((row * column) % 3)) % 2 != 0 then []
+        else (row, column) :: (if column != row then [(column, row)] else [])).count (r, c) =
+      (if ((row + column) % 2 + (row * column) % 3) % 2 = 0 ∧ row = r ∧ column = c then 1 else 0) +
+      (if ((row + column) % 2 + (row * column) % 3) % 2 = 0 ∧ column ≠ row ∧ column = r ∧ row = c
+        then 1 else 0) := by
+    intro row column
+    by_cases hg : ((row + column) % 2 + (row * column) % 3) % 2 = 0
+    · by_cases hne : column = row
+      · subst hne
+        by_cases h1 : column = r ∧ column = c
+        · obtain ⟨rfl, rfl⟩ := h1; simp [hg]
+        · have h1' : ¬ ((column, column) = (r, c)) := by
+            intro h; apply h1; simpa using h
+          have h1'' : ((column, column) == (r, c)) = false := by simpa using h1'
+          simp [hg, List.count_cons, h1'', h1]
+      · have hne' : (column != row) = true := by simpa using hne
+        simp only [hg, hne', bne_self_eq_false, Bool.false_eq_true, if_false, if_true, true_and,
+          List.count_cons, List.count_nil, ne_eq, hne, not_false_eq_true, Nat.zero_add]
+        have e1 : ((row, column) == (r, c)) = decide (row = r ∧ column = c) := by
+          by_cases h : row = r ∧ column = c
+          · obtain ⟨rfl, rfl⟩ := h; simp
+          · have : ¬ ((row, column) = (r, c)) := by intro h'; apply h; simpa using h'
+            simp [h, this]
+        have e2 : ((column, row) == (r, c)) = decide (column = r ∧ row = c) := by
+          by_cases h : column = r ∧ row = c
+          · obtain ⟨rfl, rfl⟩ := h; simp
+          · have : ¬ ((column, row) = (r, c)) := by intro h'; apply h; simpa using h'
+            simp [h, this]
+        rw [e1, e2]
+        by_cases ha : row = r ∧ column = c <;> by_cases hb : column = r ∧ row = c <;> simp [ha, hb] <;>
+          (try split) <;> omega
+    · have hg' : ((((row + column) % 2) + ((row * column) % 3)) % 2 != 0) = true := by simpa using hg
+      rw [if_pos hg', if_neg (fun h => hg h.1), if_neg (fun h => hg h.1)]; simp
+  rw [count_flatMap']
+  simp only [count_flatMap', hpiece, sum_map_add]
+  -- first summand: supported at column = c, then row = r
+  have hA : ∀ row : Nat,
+      ((List.range' row (n - row)).map fun column =>
+        if ((row + column) % 2 + (row * column) % 3) % 2 = 0 ∧ row = r ∧ column = c then 1 else 0).sum =
+      if row = r then (if row ≤ c ∧ ((row + c) % 2 + (row * c) % 3) % 2 = 0 then 1 else 0) else 0 := by
+    intro row
+    rw [sum_map_supp _ (List.nodup_range' 1 (by omega)) _ c (fun i _ hi => by simp [hi])]
+    simp only [List.mem_range'_1]
+    by_cases h : row = r
+    · subst h
+      by_cases h2 : row ≤ c
+      · have : row ≤ c ∧ c < row + (n - row) := by omega
+        simp [this, h2]
+      · have : ¬ (row ≤ c ∧ c < row + (n - row)) := by omega
+        simp [this, h2]
+    · simp [h]
+  have hB : ∀ row : Nat,
+      ((List.range' row (n - row)).map fun column =>
+        if ((row + column) % 2 + (row * column) % 3) % 2 = 0 ∧ column ≠ row ∧ column = r ∧ row = c
+          then 1 else 0).sum =
+      if row = c then (if row < r ∧ ((row + r) % 2 + (row * r) % 3) % 2 = 0 then 1 else 0) else 0 := by
+    intro row
+    rw [sum_map_supp _ (List.nodup_range' 1 (by omega)) _ r (fun i _ hi => by simp [hi])]
+    simp only [List.mem_range'_1]
+    by_cases h : row = c
+    · subst h
+      by_cases h2 : row < r
+      · have : row ≤ r ∧ r < row + (n - row) := by omega
+        have h3 : ¬ r = row := by omega
+        simp [this, h2, h3]
+      · by_cases h4 : r = row
+        · simp [h4]
+        · have : ¬ (row ≤ r ∧ r < row + (n - row)) := by omega
+          simp [this, h2]
+    · simp [h]
+  simp only [hA, hB]
+  rw [sum_map_supp _ List.nodup_range _ r (fun i _ hi => by simp [hi]),
+      sum_map_supp _ List.nodup_range _ c (fun i _ hi => by simp [hi])]
+  simp only [List.mem_range, hr, hc, if_true, beq_iff_eq]
+  have hcomm : c * r = r * c := Nat.mul_comm c r
+  have hcomm2 : c + r = r + c := Nat.add_comm c r
+  rw [hcomm, hcomm2]
+  split <;> split <;> omega
+
+/-! ### masks 5 and 6: lines every six rows / columns plus a 6x6 stencil -/
+
+theorem count_offs (n row column r c : Nat) (hr : r < n) (hc : c < n) (offs : List (Nat × Nat)) :
+    (offs.filterMap fun (y, x) =>
+        if row + y ≥ n || column + x ≥ n then none else some (row + y, column + x)).count (r, c) =
+    offs.countP (fun yx => decide (row + yx.1 = r ∧ column + yx.2 = c)) := by
+  induction offs with
+  | nil => simp
+  | cons a offs ih =>
+    obtain ⟨y, x⟩ := a
+    simp only [List.filterMap_cons, List.countP_cons]
+    by_cases hb : (decide (row + y ≥ n) || decide (column + x ≥ n)) = true
+    · simp only [hb, if_true]
+      rw [ih]
+      have : ¬ (row + y = r ∧ column + x = c) := by
+        simp only [Bool.or_eq_true, decide_eq_true_eq] at hb; omega
+      simp [this]
+    · simp only [hb]
+      simp only [Bool.false_eq_true, if_false, List.count_cons, ih]
+      by_cases he : row + y = r ∧ column + x = c
+      · obtain ⟨rfl, rfl⟩ := he; simp
+      · have : ¬ ((row + y, column + x) = (r, c)) := by intro h; apply he; simpa using h
+        simp [he, this]
+
+theorem countP_offs_zero (offs : List (Nat × Nat)) (hoffs : ∀ yx ∈ offs, yx.1 < 6 ∧ yx.2 < 6)
+    (row column r c : Nat) (hrow : row % 6 = 0) (hcol : column % 6 = 0)
+    (hne : row ≠ r - r % 6 ∨ column ≠ c - c % 6) :
+    offs.countP (fun yx => decide (row + yx.1 = r ∧ column + yx.2 = c)) = 0 := by
+  rw [List.countP_eq_zero]
+  intro yx hyx
+  have := hoffs yx hyx
+  simp only [decide_eq_true_eq]
+  omega
+
+theorem countP_offs_at (offs : List (Nat × Nat)) (r c : Nat) :
+    offs.countP (fun yx => decide ((r - r % 6) + yx.1 = r ∧ (c - c % 6) + yx.2 = c)) =
+      offs.count (r % 6, c % 6) := by
+  rw [List.count_eq_countP]
+  apply List.countP_congr
+  intro yx _
+  obtain ⟨y, x⟩ := yx
+  have h1 := Nat.mod_le r 6
+  have h2 := Nat.mod_le c 6
+  simp only [decide_eq_true_eq, beq_iff_eq, Prod.mk.injEq]
+  constructor <;> intro h <;> omega
+
+theorem count_mask56 (n r c : Nat) (hr : r < n) (hc : c < n) (offs : List (Nat × Nat))
+    (hoffs : ∀ yx ∈ offs, yx.1 < 6 ∧ yx.2 < 6) :
+    (mask56Positions n offs).count (r, c) =
+      (if r % 6 = 0 then 1 else 0) + (if c % 6 = 0 ∧ r % 6 ≠ 0 then 1 else 0) +
+        offs.count (r % 6, c % 6) := by
+  unfold mask56Positions
+  rw [List.count_append]
+  congr 1
+  · -- the lines
+    have hpiece : ∀ row column : Nat,
+        ((row, column) :: (if row % 6 != 0 || column % 6 != 0 then [(column, row)] else [])).count (r, c) =
+        (if row = r ∧ column = c then 1 else 0) +
+        (if (row % 6 ≠ 0 ∨ column % 6 ≠ 0) ∧ column = r ∧ row = c then 1 else 0) := by
+      intro row column
+      have e1 : ((row, column) == (r, c)) = decide (row = r ∧ column = c) := by
+        by_cases h : row = r ∧ column = c
+        · obtain ⟨rfl, rfl⟩ := h; simp
+        · have : ¬ ((row, column) = (r, c)) := by intro h'; apply h; simpa using h'
+          simp [h, this]
+      have e2 : ((column, row) == (r, c)) = decide (column = r ∧ row = c) := by
+        by_cases h : column = r ∧ row = c
+        · obtain ⟨rfl, rfl⟩ := h; simp
+        · have : ¬ ((column, row) = (r, c)) := by intro h'; apply h; simpa using h'
+          simp [h, this]
+      by_cases hg : row % 6 ≠ 0 ∨ column % 6 ≠ 0
+      · have hg' : (row % 6 != 0 || column % 6 != 0) = true := by simpa using hg
+        rw [if_pos hg']
+        simp only [List.count_cons, List.count_nil, e1, e2, hg, true_and]
+        by_cases ha : row = r ∧ column = c <;> by_cases hb : column = r ∧ row = c <;> simp [ha, hb] <;>
+          (try split) <;> omega
+      · have hg' : ¬ (row % 6 != 0 || column % 6 != 0) = true := by simpa using hg
+        rw [if_neg hg']
+        simp only [List.count_cons, List.count_nil, e1, hg, false_and, if_false]
+        by_cases ha : row = r ∧ column = c <;> simp [ha]
+    rw [count_flatMap']
+    simp only [count_flatMap', hpiece, sum_map_add]
+    have hA : ∀ row : Nat,
+        ((List.range n).map fun column => if row = r ∧ column = c then 1 else 0).sum =
+        if row = r then 1 else 0 := by
+      intro row
+      rw [sum_map_supp _ List.nodup_range _ c (fun i _ hi => by simp [hi])]
+      simp [hc]
+    have hB : ∀ row : Nat,
+        ((List.range n).map fun column =>
+          if (row % 6 ≠ 0 ∨ column % 6 ≠ 0) ∧ column = r ∧ row = c then 1 else 0).sum =
+        if row = c then (if row % 6 ≠ 0 ∨ r % 6 ≠ 0 then 1 else 0) else 0 := by
+      intro row
+      rw [sum_map_supp _ List.nodup_range _ r (fun i _ hi => by simp [hi])]
+      simp only [List.mem_range, hr, if_true]
+      by_cases h : row = c <;> simp [h]
+    simp only [hA, hB]
+    rw [sum_map_supp _ (nodup_stepRange 0 n 6 (by omega)) _ r (fun i _ hi => by simp [hi]),
+        sum_map_supp _ (nodup_stepRange 0 n 6 (by omega)) _ c (fun i _ hi => by simp [hi])]
+    simp only [mem_stepRange (show 0 < 6 by omega), if_true]
+    simp only [Nat.sub_zero, Nat.zero_le, true_and, hr, hc]
+    by_cases h1 : r % 6 = 0 <;> by_cases h2 : c % 6 = 0 <;> simp [h1, h2]
+  · -- the stencil
+    rw [count_flatMap']
+    simp only [count_flatMap', count_offs n _ _ r c hr hc]
+    have hin : ∀ row : Nat, row ∈ stepRange 0 n 6 →
+        ((stepRange 0 n 6).map fun column =>
+          offs.countP (fun yx => decide (row + yx.1 = r ∧ column + yx.2 = c))).sum =
+        if row = r - r % 6 then offs.count (r % 6, c % 6) else 0 := by
+      intro row hrow
+      rw [mem_stepRange (by omega)] at hrow
+      rw [sum_map_supp _ (nodup_stepRange 0 n 6 (by omega)) _ (c - c % 6) (fun i hi hne => by
+        rw [mem_stepRange (by omega)] at hi
+        exact countP_offs_zero offs hoffs row i r c (by omega) (by omega) (Or.inr hne))]
+      have hmem : c - c % 6 ∈ stepRange 0 n 6 := by
+        rw [mem_stepRange (by omega)]; omega
+      rw [if_pos hmem]
+      by_cases h : row = r - r % 6
+      · rw [if_pos h, h, countP_offs_at]
+      · rw [if_neg h]
+        exact countP_offs_zero offs hoffs row _ r c (by omega) (by omega) (Or.inl h)
+    have : ((stepRange 0 n 6).map fun row => ((stepRange 0 n 6).map fun column =>
+          offs.countP (fun yx => decide (row + yx.1 = r ∧ column + yx.2 = c))).sum) =
+        ((stepRange 0 n 6).map fun row => if row = r - r % 6 then offs.count (r % 6, c % 6) else 0) :=
+      List.map_congr_left hin
+    rw [this, sum_map_supp _ (nodup_stepRange 0 n 6 (by omega)) _ (r - r % 6) (fun i _ hi => by simp [hi])]
+    have hmem : r - r % 6 ∈ stepRange 0 n 6 := by
+      rw [mem_stepRange (by omega)]; omega
+    simp [hmem]
+
+theorem fin_mask5 : ∀ a, a < 6 → ∀ b, b < 6 →
+    (((if a = 0 then 1 else 0) + (if b = 0 ∧ a ≠ 0 then 1 else 0) + offsets5.count (a, b)) % 2 = 1 ↔
+      ((a * b) % 2 + (a * b) % 3 == 0) = true) := by decide
+
+theorem fin_mask6 : ∀ a, a < 6 → ∀ b, b < 6 →
+    (((if a = 0 then 1 else 0) + (if b = 0 ∧ a ≠ 0 then 1 else 0) + offsets6.count (a, b)) % 2 = 1 ↔
+      (((a * b) % 2 + (a * b) % 3) % 2 == 0) = true) := by decide
+
+theorem mul_mod_2_3 (r c : Nat) :
+    (r * c) % 2 = ((r % 6) * (c % 6)) % 2 ∧ (r * c) % 3 = ((r % 6) * (c % 6)) % 3 := by
+  have h6 := Nat.mul_mod r c 6
+  have h2 : (r * c) % 6 % 2 = (r * c) % 2 := Nat.mod_mod_of_dvd _ (by decide)
+  have h3 : (r * c) % 6 % 3 = (r * c) % 3 := Nat.mod_mod_of_dvd _ (by decide)
+  have h2' : ((r % 6) * (c % 6)) % 6 % 2 = ((r % 6) * (c % 6)) % 2 := Nat.mod_mod_of_dvd _ (by decide)
+  have h3' : ((r % 6) * (c % 6)) % 6 % 3 = ((r % 6) * (c % 6)) % 3 := Nat.mod_mod_of_dvd _ (by decide)
+  rw [← h2, ← h3, h6, h2', h3']; exact ⟨rfl, rfl⟩
+
+theorem count_mask5 (n r c : Nat) (hr : r < n) (hc : c < n) :
+    (maskPositions 5 n).count (r, c) % 2 = 1 ↔ maskCond 5 r c = true := by
+  simp only [maskPositions, maskCond]
+  rw [count_mask56 n r c hr hc offsets5 (by decide), (mul_mod_2_3 r c).1, (mul_mod_2_3 r c).2]
+  exact fin_mask5 (r % 6) (Nat.mod_lt _ (by omega)) (c % 6) (Nat.mod_lt _ (by omega))
+
+theorem count_mask6 (n r c : Nat) (hr : r < n) (hc : c < n) :
+    (maskPositions 6 n).count (r, c) % 2 = 1 ↔ maskCond 6 r c = true := by
+  simp only [maskPositions, maskCond]
+  rw [count_mask56 n r c hr hc offsets6 (by decide), (mul_mod_2_3 r c).1, (mul_mod_2_3 r c).2]
+  exact fin_mask6 (r % 6) (Nat.mod_lt _ (by omega)) (c % 6) (Nat.mod_lt _ (by omega))
+
+/-! ### every visit is inside the square -/
+
+theorem mem56_bounds (n : Nat) (offs : List (Nat × Nat)) :
+    ∀ p ∈ mask56Positions n offs, p.1 < n ∧ p.2 < n := by
+  intro p hp
+  simp only [mask56Positions, List.mem_append, List.mem_flatMap, List.mem_cons, List.mem_range,
+    List.mem_filterMap, mem_stepRange (show 0 < 6 by omega)] at hp
+  rcases hp with ⟨row, hrow, column, hcol, hp⟩ | ⟨row, hrow, column, hcol, yx, _, hp⟩
+  · rcases hp with rfl | hp
+    · exact ⟨hrow.2.1, hcol⟩
+    · split at hp
+      · simp only [List.mem_singleton] at hp; subst hp; exact ⟨hcol, hrow.2.1⟩
+      · simp at hp
+  · obtain ⟨y, x⟩ := yx
+    simp only at hp
+    split at hp
+    · simp at hp
+    · rename_i hb
+      simp only [Bool.or_eq_true, decide_eq_true_eq, not_or, Nat.not_le] at hb
+      simp only [Option.some.injEq] at hp
+      subst hp
+      exact hb
+
+theorem mem_bounds (m n : Nat) : ∀ p ∈ maskPositions m n, p.1 < n ∧ p.2 < n := by
+  intro p hp
+  unfold maskPositions at hp
+  split at hp
+  · simp only [List.mem_flatMap, List.mem_map, List.mem_range, mem_stepRange (show 0 < 2 by omega)] at hp
+    obtain ⟨row, hrow, column, hcol, rfl⟩ := hp; exact ⟨hrow, hcol.2.1⟩
+  · simp only [List.mem_flatMap, List.mem_map, List.mem_range, mem_stepRange (show 0 < 2 by omega)] at hp
+    obtain ⟨row, hrow, column, hcol, rfl⟩ := hp; exact ⟨hrow.2.1, hcol⟩
+  · simp only [List.mem_flatMap, List.mem_map, List.mem_range, mem_stepRange (show 0 < 3 by omega)] at hp
+    obtain ⟨row, hrow, column, hcol, rfl⟩ := hp; exact ⟨hrow, hcol.2.1⟩
+  · simp only [List.mem_flatMap, List.mem_map, List.mem_range, mem_stepRange (show 0 < 3 by omega)] at hp
+    obtain ⟨row, hrow, column, hcol, rfl⟩ := hp; exact ⟨hrow, hcol.2.1⟩
+  · simp only [List.mem_flatMap, List.mem_map, List.mem_range, List.mem_range'_1,
+      mem_stepRange (show 0 < 6 by omega)] at hp
+    obtain ⟨row, hrow, column, hcol, i, hi, rfl⟩ := hp
+    exact ⟨hrow, by omega⟩
+  · exact mem56_bounds n _ p hp
+  · exact mem56_bounds n _ p hp
+  · simp only [List.mem_flatMap, List.mem_range, List.mem_range'_1] at hp
+    obtain ⟨row, hrow, column, hcol, hp⟩ := hp
+    split at hp
+    · simp at hp
+    · simp only [List.mem_cons] at hp
+      rcases hp with rfl | hp
+      · exact ⟨hrow, by omega⟩
+      · split at hp
+        · simp only [List.mem_singleton] at hp; subst hp; exact ⟨by omega, hrow⟩
+        · simp at hp
+
+/-- **visit parity = ISO Table 10 condition, for every side and every mask number** -/
+theorem count_parity (m n r c : Nat) (hr : r < n) (hc : c < n) :
+    (maskPositions m n).count (r, c) % 2 = 1 ↔ maskCond m r c = true := by
+  match m with
+  | 0 => exact count_mask0 n r c hr hc
+  | 1 => exact count_mask1 n r c hr hc
+  | 2 => exact count_mask2 n r c hr hc
+  | 3 => exact count_mask3 n r c hr hc
+  | 4 => exact count_mask4 n r c hr hc
+  | 5 => exact count_mask5 n r c hr hc
+  | 6 => exact count_mask6 n r c hr hc
+  | m + 7 => exact count_mask7 (m + 7) n r c (by omega) hr hc
+
+/-- the sweep never indexes outside the square, whatever the side -/
+theorem maskTraps_nil (m n : Nat) : maskTraps m n = [] := by
+  unfold maskTraps
+  rw [if_pos]
+  rw [List.all_eq_true]
+  intro p hp
+  simpa using mem_bounds m n p hp
+
+end FastQr.Proofs.SweepSym
